@@ -19,6 +19,7 @@ type Thread struct {
 	started bool
 	exited  bool
 	blocked func() bool // non-nil while blocked; returns true when it may proceed
+	onStart func()
 	p       *Path
 }
 
@@ -63,6 +64,10 @@ func (p *Path) startThread(th *Thread, isMain bool) {
 			}
 		}()
 		p.cur = th
+		th.blocked = nil
+		if th.onStart != nil {
+			th.onStart()
+		}
 		p.call(nil, 0, th.fn, th.args)
 	}()
 }
